@@ -182,19 +182,18 @@ inductive EK where
 
 /-! ## `ir_util` helpers -/
 
-/-- What `ir_util.get_attribute` compares: name and `is_default`; NOT the back-end qualifier
-(quirk, open finding). -/
+/-- What `ir_util.get_attribute` (with `back_end=None`) compares: name, `is_default`, and the
+back-end qualifier, which must be absent. -/
 def Attr.named (a : Attr) (n : String) : Bool :=
-  a.name = n ∧ a.isDefault = false
+  a.name = n ∧ a.isDefault = false ∧ a.backEnd = ""
 
-/-- What `attribute_util.gather_default_attributes` picks up, restricted to `byte_order`: every
-`$default byte_order`, whatever its back-end qualifier (same quirk). -/
+/-- What `attribute_util.gather_default_attributes` (with `back_end=None`) picks up, restricted
+to `byte_order`: the unqualified `$default byte_order`. -/
 def Attr.isByteOrderDefault (a : Attr) : Bool :=
-  a.isDefault = true ∧ a.name = "byte_order"
+  a.isDefault = true ∧ a.name = "byte_order" ∧ a.backEnd = ""
 
-/-- `ir_util.get_attribute`: first non-default attribute of that name.  The back-end
-qualifier is NOT looked at (quirk).  (The Python asserts that there is at most one; see
-`EK.crash` for the one way the front end itself creates two.) -/
+/-- `ir_util.get_attribute`: first unqualified non-default attribute of that name.  (The
+Python asserts that there is at most one; `_check_attributes` rejects duplicates before.) -/
 def getAttr (attrs : List Attr) (n : String) : Option AVal :=
   (attrs.find? (fun a => a.named n)).map (·.val)
 
@@ -204,10 +203,10 @@ def getInt (attrs : List Attr) (n : String) : Option Int :=
   | some (.int (some v)) => some v
   | _ => none
 
-/-- What `ir_util.get_boolean_attribute` makes of an attribute value: only a literal
-`boolean_constant` counts (`[is_signed: 1 == 1]` is "no value": open finding). -/
+/-- What `ir_util.get_boolean_attribute` makes of an attribute value: the value of any
+constant boolean expression (`[is_signed: 1 == 1]` is `true`), literal or not. -/
 def AVal.boolValue : AVal → Option Bool
-  | .bool (some b) true => some b
+  | .bool (some b) _ => some b
   | _ => none
 
 theorem AVal.boolValue_spec {v : AVal} {b : Bool} (h : v.boolValue = some b) :
@@ -707,10 +706,23 @@ def Bound.fin? : Bound → Option Int
 
 /-- `_check_type_requirements_for_field` on a scalar field one of whose size bounds is
 `"-infinity"`/`"infinity"` (`unit`: bits per addressable unit; `explicit`: the `:n` of the type;
-`typeSize`: the type's fixed size): `int("infinity")` raises ValueError (open finding). -/
-def typeReqUnbounded (_rt : TypeInfo) (_unit : Int) (_mn _mx : Bound)
-    (_explicit _typeSize : Option Int) : List EK :=
-  [.crash]
+`typeSize`: the type's fixed size).  The infinite bound is compared as such
+(`_size_bound_in_bits` returns `float("±infinity")`): minimum and maximum are never equal, no
+fixed-size type is bigger than an infinite maximum, and the type's requirements are checked
+with its own size (if any).  The unbounded size itself is reported by the 64-bit gate. -/
+def typeReqUnbounded (rt : TypeInfo) (unit : Int) (_mn mx : Bound)
+    (explicit typeSize : Option Int) : List EK :=
+  let tooBig (e : Int) : Bool :=
+    match mx with
+    | .fin v => e > v * unit
+    | .posInf => false
+    | .negInf => true
+  match explicit, typeSize with
+  | some e, some ts =>
+    if e ≠ ts then [.explicitMismatch] else if tooBig e then [.fieldTooSmall] else physReq rt (some e)
+  | some e, none => if tooBig e then [.fieldTooSmall] else physReq rt (some e)
+  | none, some e => if tooBig e then [.fieldTooSmall] else physReq rt (some e)
+  | none, none => physReq rt none
 
 /-- `_check_type_requirements_for_field`, on the atomic leaf of the field's type. -/
 def typeReq (p : Program) (t : TypeInfo) (f : Field) : List EK :=
